@@ -38,10 +38,11 @@ static void table_shape(int shape) {
 }
 
 /* layout code: count (0..240), pos: -1 absent, -2 decoy for a 14-byte stride reader, -3 decoy shifted by 2, else position */
+static int BRIDGED;            /* the Discover reaches us through a bridge: Ethernet source BR, real source (the session's key) M1 */
 static size_t build_discover(uint8_t *buf, size_t mtu, int count, int pos) {
     memset(buf, 0x5A, mtu);                    /* stale bytes after the frame are not zero */
     static const uint8_t bc[6] = {0xff, 0xff, 0xff, 0xff, 0xff, 0xff};
-    fb_base(buf, bc, vf_station[ST_M1], 0, 0x00, bc, vf_station[ST_M1], SEQ);
+    fb_base(buf, bc, vf_station[BRIDGED ? ST_BR : ST_M1], 0, 0x00, bc, vf_station[ST_M1], SEQ);
     buf[32] = GEN >> 8; buf[33] = GEN & 0xff; buf[34] = (uint8_t)(count >> 8); buf[35] = (uint8_t)count;
     for (int i = 0; i < count; i++) {
         /* fillers share 5 leading or 5 trailing bytes with the own address */
@@ -65,18 +66,20 @@ static const char *evname(int e) {
 }
 
 /* path: [0, mtu, count, pos+8, shape] for Discover; [1, opcode, dst] for the opcode sweep */
-static void one_discover(size_t mtu, int count, int pos, int shape, int null_mac) {
+static void one_discover(size_t mtu, int count, int pos, int shape, int flags) {
     static uint8_t buf[VF_MAXMTU + 64];
+    int null_mac = flags & 1; BRIDGED = (flags >> 1) & 1;
     build_discover(buf, mtu, count, pos);
+    BRIDGED = 0;
     table_shape(shape);
-    static int p[6]; p[0] = 0; p[1] = (int)mtu; p[2] = count; p[3] = pos + 8; p[4] = shape; p[5] = null_mac;
+    static int p[6]; p[0] = 0; p[1] = (int)mtu; p[2] = count; p[3] = pos + 8; p[4] = shape; p[5] = flags;
     e1_manual_path(&pseudo, p, 6);
     int ev = derive_session_event(buf, T, null_mac ? NULL : OWN);
     int ev2 = derive_session_event_len(buf, 36 + 6 * (size_t)count, T, null_mac ? NULL : OWN);      /* as the Darwin daemon calls it */
     evals += 2;
     if (ev2 != ev) vf_violation("classify:length-bounded-variant-differs", "Discover with %d stations received completely: derive_session_event_len -> %s, derive_session_event -> %s", count, evname(ev2), evname(ev));
     vf_outcome(vf_hash64(&ev, sizeof ev, (uint64_t)(pos >= 0) + 2u * (uint64_t)shape));
-    if (A.verbose) printf("    Discover(count=%d, own address %s, table: %s) -> %s\n", count, pos >= 0 ? "listed" : "not listed", TBNAME[shape], evname(ev));
+    if (A.verbose) printf("    Discover(%scount=%d, own address %s, table: %s) -> %s\n", (flags & 2) ? "through a bridge, " : "", count, pos >= 0 ? "listed" : "not listed", TBNAME[shape], evname(ev));
     if (null_mac) return;                       /* only memory safety is demanded without an own address */
     int changed = (shape == TB_OTHER_SEQ || shape == TB_HOLE_OTHER_SEQ || shape == TB_LAST_SLOT_OTHER_SEQ);
     int ack_class = (ev == sess_discover_acking || ev == sess_discover_acking_chgd_xid);
@@ -149,6 +152,7 @@ int main(int argc, char **argv) {
     size_t mtus[2] = {1500, 9216};
     for (int mi = 0; mi < 2; mi++) for (int count = 0; count <= 240; count++) for (int shape = 0; shape < TB_N; shape++) {
         for (int pos = -3; pos < count; pos++) one_discover(mtus[mi], count, pos, shape, 0);
+        if (mi == 0) for (int pos = -1; pos < count; pos++) one_discover(mtus[mi], count, pos, shape, 2);      /* the same through a bridge */
         one_discover(mtus[mi], count, -1, shape, 1);
         if (count) one_discover(mtus[mi], count, count / 2, shape, 1);
     }
@@ -158,6 +162,7 @@ int main(int argc, char **argv) {
     }
     for (int op = 0; op < 256; op++) for (int dst = 0; dst < 3; dst++) one_opcode(op, dst);
     vf_sample("Discover(count=240, own address at position 239, table: same mapper+generation, other seq) -> must be discover_acking_chgd_xid");
+    vf_sample("the same layouts with Ethernet source = a bridge and real source = the mapper (MTU 1500): the session is the real source's");
     vf_sample("Discover(count=5, own address only at byte offset 56 (where a 14-byte-stride reader looks), table empty) -> must be discover_noack");
     vf_sample("truncated Discover: count 1..240 x received stations {0,1,count/2,count-1,count} x own address inside / beyond the received part (bounded entry point)");
     vf_sample("opcode 0x08 with real destination broadcast -> topo_reset; unicast -> reset; opcode 0x01 -> hello; all 253 others -> no event");
